@@ -417,7 +417,7 @@ fn diag(d: &Diagnostic, nodes: &[Value], stage: &str) -> Value {
         .iter()
         .map(|ri| {
             let rr = rng(&ri.range);
-            json!({"an": anchors(&rr, nodes), "r": rr})
+            json!({"an": anchors(&rr, nodes), "r": rr, "msg": ri.message})
         })
         .collect();
     let (words, quoted) = message_words(&d.message);
@@ -429,6 +429,8 @@ fn diag(d: &Diagnostic, nodes: &[Value], stage: &str) -> Value {
         "r": r,
         "tag": tag_of(d),
         "msg": d.message,
+        "ctx": match &d.context_message { Some(x) => json!([x]), None => json!([]) },
+        "hint": match &d.hint { Some(x) => json!([x]), None => json!([]) },
         "rel": rel,
         "stage": stage,
     })
